@@ -737,8 +737,12 @@ def run_units(cases, nproc=None, chunk=64):
     chunks = [cases[i:i + chunk] for i in range(0, len(cases), chunk)]
     if nproc == 1 or len(chunks) == 1:
         return _chunk(cases)
+    from .pool import robust_map
+
+    def failed(ch, why):
+        return [{"cid": c["cid"], "fn": "error", "op": c["fn"], "cls": "DriverProcessFailure", "msg": why, "input": {}} for c in ch]
+
     out = []
-    with ProcessPoolExecutor(max_workers=min(nproc, len(chunks)), mp_context=get_context("spawn")) as ex:
-        for r in ex.map(_chunk, chunks):
-            out.extend(r)
+    for r in robust_map(_chunk, chunks, nproc, failed):
+        out.extend(r)
     return out
